@@ -37,6 +37,8 @@ Record state := {
   maps : list (list (list N * value));(* map objects, kept sorted by key *)
   closures : list closure;
   trace : list (list value);          (* arguments of every print() call, in order *)
+  defers : list (list (value * list value));  (* per active function call: deferred (callee, arguments), most recent first *)
+  pending : option (value * list value);      (* a call to perform: see the marker node in [eval] *)
 }.
 
 Definition wrap64 (z : Z) : Z := (z + 9223372036854775808) mod 18446744073709551616 - 9223372036854775808.
@@ -53,23 +55,31 @@ Fixpoint list_set {A} (l : list A) (i : nat) (v : A) : list A :=
   match l, i with [], _ => [] | _ :: r, O => v :: r | x :: r, S j => x :: list_set r j v end.
 
 Definition alloc (s : state) (v : value) : loc * state :=
-  (length (store s), {| store := store s ++ [v]; lists := lists s; maps := maps s; closures := closures s; trace := trace s |}).
+  (length (store s), {| store := store s ++ [v]; lists := lists s; maps := maps s; closures := closures s; trace := trace s; defers := defers s; pending := pending s |}).
 Definition set_store (s : state) (l : loc) (v : value) : state :=
-  {| store := list_set (store s) l v; lists := lists s; maps := maps s; closures := closures s; trace := trace s |}.
+  {| store := list_set (store s) l v; lists := lists s; maps := maps s; closures := closures s; trace := trace s; defers := defers s; pending := pending s |}.
 Definition new_list (s : state) (vs : list value) : value * state :=
-  (VList (length (lists s)), {| store := store s; lists := lists s ++ [vs]; maps := maps s; closures := closures s; trace := trace s |}).
+  (VList (length (lists s)), {| store := store s; lists := lists s ++ [vs]; maps := maps s; closures := closures s; trace := trace s; defers := defers s; pending := pending s |}).
 Definition set_list (s : state) (l : loc) (vs : list value) : state :=
-  {| store := store s; lists := list_set (lists s) l vs; maps := maps s; closures := closures s; trace := trace s |}.
+  {| store := store s; lists := list_set (lists s) l vs; maps := maps s; closures := closures s; trace := trace s; defers := defers s; pending := pending s |}.
 Definition new_map (s : state) (kvs : list (list N * value)) : value * state :=
-  (VMap (length (maps s)), {| store := store s; lists := lists s; maps := maps s ++ [kvs]; closures := closures s; trace := trace s |}).
+  (VMap (length (maps s)), {| store := store s; lists := lists s; maps := maps s ++ [kvs]; closures := closures s; trace := trace s; defers := defers s; pending := pending s |}).
 Definition set_map (s : state) (l : loc) (kvs : list (list N * value)) : state :=
-  {| store := store s; lists := lists s; maps := list_set (maps s) l kvs; closures := closures s; trace := trace s |}.
+  {| store := store s; lists := lists s; maps := list_set (maps s) l kvs; closures := closures s; trace := trace s; defers := defers s; pending := pending s |}.
 Definition new_closure (s : state) (c : closure) : value * state :=
-  (VClosure (length (closures s)), {| store := store s; lists := lists s; maps := maps s; closures := closures s ++ [c]; trace := trace s |}).
+  (VClosure (length (closures s)), {| store := store s; lists := lists s; maps := maps s; closures := closures s ++ [c]; trace := trace s; defers := defers s; pending := pending s |}).
 Definition add_trace (s : state) (vs : list value) : state :=
-  {| store := store s; lists := lists s; maps := maps s; closures := closures s; trace := trace s ++ [vs] |}.
+  {| store := store s; lists := lists s; maps := maps s; closures := closures s; trace := trace s ++ [vs]; defers := defers s; pending := pending s |}.
 
 (* byte-wise string order, as Go compares strings *)
+Definition set_defers (s : state) (d : list (list (value * list value))) : state :=
+  {| store := store s; lists := lists s; maps := maps s; closures := closures s; trace := trace s; defers := d; pending := pending s |}.
+Definition set_pending (s : state) (p : option (value * list value)) : state :=
+  {| store := store s; lists := lists s; maps := maps s; closures := closures s; trace := trace s; defers := defers s; pending := p |}.
+(* the marker node: evaluating it performs the call stored in [pending] (one fuel level down) - this is how
+   a function's deferred calls are run from inside [call] *)
+Definition apply_marker : node := NIdent [].
+
 Fixpoint str_cmp (a b : list N) : comparison :=
   match a, b with
   | [], [] => Eq | [], _ => Lt | _, [] => Gt
@@ -235,7 +245,7 @@ Definition names_append := [97;112;112;101;110;100]%N.
 
 Definition global_env : env := [[(names_len, (0%nat, true)); (names_print, (1%nat, true))]].
 Definition init_state : state :=
-  {| store := [VBuiltin names_len; VBuiltin names_print]; lists := []; maps := []; closures := []; trace := [] |}.
+  {| store := [VBuiltin names_len; VBuiltin names_print]; lists := []; maps := []; closures := []; trace := []; defers := []; pending := None |}.
 
 Definition bind_name (e : env) (name : list N) (l : loc) (const : bool) : env :=
   match e with s :: r => ((name, (l, const)) :: s) :: r | [] => [[(name, (l, const))]] end.
@@ -304,13 +314,29 @@ Section Eval.
                   let '(sc2, s2) := match cl_name c with
                                     | Some nm => let '(l, s') := alloc s1 fv in ((nm, (l, true)) :: sc, s')
                                     | None => (sc, s1) end in
-                  match eval_stmts ([] :: sc2 :: cl_env c) s2 (cl_body c) VNil with
-                  | (ORet v, _, s3) => (OVal v, e, s3)
+                  (* deferred calls of this activation run when it ends - normally or with an error - most recent first;
+                     their results are discarded, and the error of the last one that fails replaces the outcome *)
+                  let run_defers := fix rd (ds : list (value * list value)) (s : state) (err : option errk) : option errk * state :=
+                      match ds with
+                      | [] => (err, s)
+                      | d :: r => match eval e (set_pending s (Some d)) apply_marker with
+                                  | (OErr k, _, s') => rd r s' (Some k)
+                                  | (_, _, s') => rd r s' err
+                                  end
+                      end in
+                  let finish (o : outcome) (s3 : state) : R :=
+                      let '(ds, outer) := match defers s3 with d :: r => (d, r) | [] => ([], []) end in
+                      match run_defers ds (set_defers s3 outer) None with
+                      | (Some k, s4) => (OErr k, e, s4)
+                      | (None, s4) => (o, e, s4)
+                      end in
+                  match eval_stmts ([] :: sc2 :: cl_env c) (set_defers s2 ([] :: defers s2)) (cl_body c) VNil with
+                  | (ORet v, _, s3) => finish (OVal v) s3
                   | (OVal v, _, s3) =>
                       (* implicit return: the value of the last statement when it is an expression node *)
-                      (OVal (match rev (cl_body c) with x :: _ => if implements_expression x then v else VNil | [] => VNil end), e, s3)
-                  | (OErr k, _, s3) => (OErr k, e, s3)
-                  | (OBrk, _, s3) | (OCont, _, s3) => (OErr XUnsupported, e, s3)
+                      finish (OVal (match rev (cl_body c) with x :: _ => if implements_expression x then v else VNil | [] => VNil end)) s3
+                  | (OErr k, _, s3) => finish (OErr k) s3
+                  | (OBrk, _, s3) | (OCont, _, s3) => finish (OErr XUnsupported) s3
                   end
               end
           | VBuiltin nm =>
@@ -343,9 +369,17 @@ Section Eval.
       | NString _ (Some _) => (OErr XUnsupported, e, s)
       | NFloat _ => (OErr XUnsupported, e, s)
       | NIdent name =>
+          match name with
+          | [] => (* the marker (no identifier is empty): perform the pending call *)
+              match pending s with
+              | Some (fv, args) => call e (set_pending s None) fv args
+              | None => (OErr XUnsupported, e, s)
+              end
+          | _ =>
           match lookup e name with
           | Some (l, _) => (OVal (nth l (store s) VNil), e, s)
           | None => (OErr XUndefined, e, s)
+          end
           end
       | NPrefix op r =>
           match eval e s r with
@@ -529,6 +563,37 @@ Section Eval.
               | (inl o, e2, s2) => (o, e2, s2)
               end
           | other => other
+          end
+      | NDefer c =>
+          (* callee, then arguments, are evaluated now; the call is performed when the enclosing function ends *)
+          let reg (e : env) (s : state) (fv : value) (vs : list value) : R :=
+              match defers s with
+              | d :: r => (OVal VNil, e, set_defers s (((fv, vs) :: d) :: r))
+              | [] => (OErr XUnsupported, e, s)        (* outside a function: rejected by the compiler *)
+              end in
+          match c with
+          | NCall fn args =>
+              match eval e s fn with
+              | (OVal fv, e1, s1) =>
+                  match eval_list e1 s1 args [] with
+                  | (inr vs, e2, s2) => reg e2 s2 fv vs
+                  | (inl o, e2, s2) => (o, e2, s2)
+                  end
+              | other => other
+              end
+          | NObjectCall o name args =>
+              match eval e s o with
+              | (OVal (VList l), e1, s1) =>
+                  if beq name names_append then
+                    match eval_list e1 s1 args [] with
+                    | (inr vs, e2, s2) => reg e2 s2 (VMethod (VList l) name) vs
+                    | (inl oc, e2, s2) => (oc, e2, s2)
+                    end
+                  else (OErr XUnsupported, e1, s1)
+              | (OVal _, e1, s1) => (OErr XUnsupported, e1, s1)
+              | other => other
+              end
+          | _ => (OErr XUnsupported, e, s)
           end
       | NObjectCall o name args =>
           match eval e s o with
